@@ -572,6 +572,134 @@ theorem c02_field_optional (name : Str) (b : BTy) (d : DefaultV) (v : Scalar) :
   · simp [postprocess, f, segVal]
   · simp [postprocess, f, segVal]
 
+/-! ### 4b. the whole flat pipeline: `parseFlat` = `postprocess` over what the engine stored
+
+  `parse(Cls, args=render segs)` for one flat dataclass: `tableOf` (one action per field after the
+  built-in help), `runStrict`, then `postprocess` per field — composed, for any number of fields and
+  segments. -/
+
+/-- the table of a flat dataclass: action `i+1` is the action of field `i` -/
+theorem tableOf_get (cfg : Cfg) (dest : Str) (fs : List FieldSpec) (tbl : List Act)
+    (h : tableOf cfg dest fs = some tbl) (i : Nat) (hi : i < fs.length) :
+    ∃ a, fieldAct cfg dest fs[i] = some a ∧ tbl[i + 1]? = some a := by
+  unfold tableOf at h
+  cases hm : fs.mapM (fieldAct cfg dest) with
+  | none => simp [hm] at h
+  | some acts =>
+    simp only [hm, Option.map_some, Option.some.injEq] at h
+    subst h
+    have key : ∀ (l : List FieldSpec) (as : List Act), l.mapM (fieldAct cfg dest) = some as →
+        ∀ j (hj : j < l.length), ∃ a, fieldAct cfg dest l[j] = some a ∧ as[j]? = some a := by
+      intro l
+      induction l with
+      | nil => intro as _ j hj; simp at hj
+      | cons f rest ih =>
+        intro as has j hj
+        rw [List.mapM_cons] at has
+        cases hf : fieldAct cfg dest f with
+        | none => simp [hf] at has
+        | some a0 =>
+          cases hr : rest.mapM (fieldAct cfg dest) with
+          | none => simp [hf, hr] at has
+          | some as' =>
+            simp only [hf, hr, Option.pure_def, Option.bind_eq_bind, Option.bind_some,
+              Option.some.injEq] at has
+            subst has
+            cases j with
+            | zero => exact ⟨a0, by simpa using hf, rfl⟩
+            | succ j' =>
+              obtain ⟨a, ha1, ha2⟩ := ih as' hr j' (by simpa using hj)
+              exact ⟨a, by simpa using ha1, by simpa using ha2⟩
+    obtain ⟨a, ha1, ha2⟩ := key fs acts hm i hi
+    exact ⟨a, ha1, by simpa using ha2⟩
+
+/-- a non-boolean field becomes a `store` action carrying exactly what `get_arg_options` says -/
+theorem fieldAct_store (cfg : Cfg) (dest : Str) (f : FieldSpec) (ao : ArgOpts)
+    (hao : argOptions f = some ao) (hb : ao.isBool = false) :
+    ∃ a, fieldAct cfg dest f = some a ∧ a.kind = .store ∧ a.dest = dest ++ '.' :: f.name ∧
+      a.nargs = ao.nargs ∧ a.conv = ao.conv ∧ a.choices = ao.choices ∧ a.required = ao.required ∧
+      a.default = some ao.default := by
+  unfold fieldAct
+  simp only [hao, Option.map_some, hb, Bool.false_eq_true, ↓reduceIte]
+  exact ⟨_, rfl, rfl, rfl, rfl, rfl, rfl, rfl, rfl⟩
+
+/-- `postprocess` field by field -/
+theorem postAll_eq (dest : Str) (ns : List (Str × Val)) (fs : List FieldSpec) (g : FieldSpec → Val)
+    (h : ∀ f ∈ fs, postprocess f ((ns.lookup (dest ++ '.' :: f.name)).getD (defaultVal f.default))
+      = .ok (g f)) :
+    postAll dest ns fs = .ok (fs.map (fun f => (f.name, g f))) := by
+  induction fs with
+  | nil => rfl
+  | cons f rest ih =>
+    simp only [postAll, h f (by simp), ih (fun x hx => h x (by simp [hx])), List.map_cons]
+
+theorem argOptions_congr (f g : FieldSpec) (ht : f.ty = g.ty) (hd : f.default = g.default) :
+    argOptions f = argOptions g := by
+  cases f; cases g; simp only at ht hd; subst ht hd; rfl
+
+theorem postprocess_congr (f g : FieldSpec) (raw : Val) (ht : f.ty = g.ty) :
+    postprocess f raw = postprocess g raw := by
+  cases f; cases g; simp only at ht; subst ht; rfl
+
+/-- **C02 (flat pipeline).** For one flat dataclass, a command line of well-formed option segments
+    (exact option strings, tokens fitting `nargs` and converting) is accepted and every field comes
+    out as `postprocess` of what the segments stored over the defaults — any number of fields and
+    segments, any order. -/
+theorem c02_flat_pipeline (fenv : FEnv) (cfg : Cfg) (dest : Str) (fs : List FieldSpec)
+    (tbl : List Act) (htbl : tableOf cfg dest fs = some tbl) (vsegs : List VSeg)
+    (hlex : ∀ v ∈ vsegs, LexOk tbl v.seg)
+    (hok : ∀ v ∈ vsegs, SegOk fenv tbl (tbl.map (fun _ => 0)) v)
+    (hfin : ∀ p ∈ tbl.zipIdx, FinishQuiet fenv
+      { ns := storeAll tbl (initNs tbl) vsegs, extras := [],
+        seen := (vsegs.map (·.seg.idx)).reverse ++ [], counters := tbl.map (fun _ => 0) } p.1 p.2)
+    (g : FieldSpec → Val)
+    (hpost : ∀ f ∈ fs, postprocess f (((storeAll tbl (initNs tbl) vsegs).lookup
+      (dest ++ '.' :: f.name)).getD (defaultVal f.default)) = .ok (g f)) :
+    parseFlat fenv cfg dest fs (render (vsegs.map (·.seg))) =
+      .ok (fs.map (fun f => (f.name, g f))) := by
+  unfold parseFlat
+  simp only [htbl]
+  rw [c02_engine_roundtrip fenv tbl _ vsegs hlex hok hfin]
+  simp only [postAll_eq dest _ fs g hpost]
+
+/-- **C02 (a `List[T]` field, end to end).** In a flat dataclass whose `i`-th field is
+    `name: List[T]` (T a base type other than Any), if exactly one segment targets that field
+    (action `i+1`) with the canonical tokens of `vs`, then the field's value in the parse result is
+    the list `vs` — composed from the table construction, the engine round trip, the last-writer
+    lookup and `postprocess`. -/
+theorem c02_flat_list_field (fenv : FEnv) (cfg : Cfg) (dest : Str) (fs : List FieldSpec)
+    (tbl : List Act) (htbl : tableOf cfg dest fs = some tbl)
+    (i : Nat) (hi : i < fs.length) (b : BTy) (hb : b ≠ .any)
+    (hty : fs[i].ty = { inner := .list (.base b), optional := false })
+    (hd : fs[i].default ≠ .value (.sc .none))
+    (pre post : List VSeg) (v : VSeg) (hv : v.seg.idx = i + 1)
+    (hpostd : ∀ w ∈ post, ∀ a, tbl[w.seg.idx]? = some a → a.dest ≠ dest ++ '.' :: fs[i].name) :
+    postprocess fs[i] (((storeAll tbl (initNs tbl) (pre ++ v :: post)).lookup
+      (dest ++ '.' :: fs[i].name)).getD (defaultVal fs[i].default)) = .ok (.list v.vals) := by
+  obtain ⟨a, hfa, hta⟩ := tableOf_get cfg dest fs tbl htbl i hi
+  obtain ⟨⟨ao, hao, hn, hc, hch⟩, hpp⟩ := c02_field_list fs[i].name b hb fs[i].default hd v.vals
+  -- `argOptions` / `postprocess` look at the annotation and the default only
+  have hao' : argOptions fs[i] = some ao := by
+    rw [← hao]; exact argOptions_congr _ _ hty rfl
+  have hbool : ao.isBool = false := by
+    simp only [argOptions] at hao
+    have hdn : (fs[i].default = DefaultV.value (Val.sc Scalar.none)) = False := by simp [hd]
+    simp only [hdn, decide_false, Bool.false_eq_true, Bool.or_self, ↓reduceIte] at hao
+    cases hcc : containerConv (.base b) with
+    | none => simp [hcc] at hao
+    | some c => simp only [hcc, Option.map_some, Option.some.injEq] at hao; subst hao; rfl
+  obtain ⟨a', hfa', _, hdest, hnargs, _⟩ := fieldAct_store cfg dest fs[i] ao hao' hbool
+  rw [hfa] at hfa'
+  cases hfa'
+  have hidx : tbl[v.seg.idx]? = some a := by rw [hv]; exact hta
+  have hlook := storeAll_written tbl (initNs tbl) pre post v a hidx
+    (fun w hw c hc' => by rw [hdest]; exact hpostd w hw c hc')
+  rw [hdest, hnargs, hn] at hlook
+  rw [hlook]
+  simp only [Option.getD_some]
+  rw [← hpp]
+  exact postprocess_congr _ _ _ hty
+
 /-! ### 5. non-vacuity: a concrete heterogeneous command line meets every hypothesis -/
 
 def demoTbl : List Act :=
@@ -590,5 +718,24 @@ example : LexOk demoTbl ⟨2, "--l".toList, ["a".toList, [] ]⟩ :=
     intro t ht
     simp only [List.mem_cons, List.not_mem_nil, or_false] at ht
     rcases ht with h | h <;> subst h <;> simp [NoDash]⟩
+
+/-- the flat pipeline on a concrete dataclass `n: int = 0; l: List[str] = []` registered at `c` -/
+def demoFs : List FieldSpec :=
+  [ { name := "n".toList, ty := { inner := .sc (.base .int), optional := false }, default := .value (.sc (.int 0)) },
+    { name := "l".toList, ty := { inner := .list (.base .str), optional := false }, default := .value (.list []) } ]
+
+def demoCfg : Cfg := { dash := .underscore, gen := .flat, nest := .default }
+
+example : (match parseFlat [] demoCfg "c".toList demoFs
+      ["--l".toList, "a".toList, "".toList, "--n".toList, "-5".toList] with
+    | .ok r => some r | _ => none)
+    = some [("n".toList, .sc (.int (-5))), ("l".toList, .list [.str "a".toList, .str []])] := by
+  decide +kernel
+
+/-- the hypotheses of `c02_flat_list_field` are met by that dataclass (field 1, action 2) -/
+example : ∃ tbl, tableOf demoCfg "c".toList demoFs = some tbl ∧ tbl.length = 3 ∧
+    demoFs[1].ty = { inner := .list (.base .str), optional := false } ∧
+    demoFs[1].default ≠ .value (.sc .none) := by
+  refine ⟨_, rfl, by decide +kernel, rfl, by decide⟩
 
 end SpVerif.C02
